@@ -251,3 +251,36 @@ func H_c08_relay() {
 	}
 	verif_witness()
 }
+
+// H_c08_tomap: describing an agent for an operator, a webhook or a third-party service
+// (ToMap detaches the parent while it converts the struct) leaves the agent where it is in
+// the pivot tree - whatever state its parent is in - and names that parent; a task issued
+// afterwards still travels through the first hop.
+func H_c08_tomap() {
+	ts, A, B, C := verifStateS()
+	depth := 1 + nondet_choice("depth", 2)
+	T := B
+	if depth == 2 {
+		C.Pivots.Parent = B
+		B.Pivots.Links = append(B.Pivots.Links, C)
+		T = C
+	}
+	parent := T.Pivots.Parent
+	parent.Active = !nondet_bool("parent-reported-inactive")
+	parent.Reason = "Disconnected"
+	info := T.ToMap()
+	verif_assert(T.Pivots.Parent == parent, "describing an agent leaves its parent in place")
+	verif_assert(info["PivotParent"] == parent.NameID, "the description names the agent's parent")
+	_, hasQueue := info["JobQueue"]
+	verif_assert(!hasQueue, "the description does not carry the job queue")
+	msg := map[string]string{}
+	job, err := T.TaskPrepare(COMMAND_SLEEP, map[string]any{"TaskID": "0000000a", "Arguments": "5;10"}, &msg, "", ts)
+	verif_assume(err == nil)
+	verif_assume(job != nil)
+	T.AddJobToQueue(*job)
+	verif_assert(len(A.JobQueue) == 1, "a task for a pivot agent is queued on the first hop")
+	if len(A.JobQueue) == 1 {
+		verif_assert(A.JobQueue[0].Command == COMMAND_PIVOT, "the first hop gets the task wrapped as a pivot task")
+	}
+	verif_witness()
+}
